@@ -354,9 +354,15 @@ class World:
             a = np.frombuffer(raw, dtype=np.uint8).copy()
             h = len(a) // 2
             return [a[:h], a[h:]]
-        if kind in ('dir', 'continues'):
+        if kind in ('dir', 'continues', 'dirlink'):
             data = task.get_data_object()
             d = data.dir
+            if kind == 'dirlink':
+                # a relative symlink that leaves the result directory: links the stored file of the first file-type input
+                for it in task.input_tasks.values():
+                    if _is_task(it) and it.data_path is not None and it.has_data and it.data_path.is_file():
+                        os.symlink(os.path.relpath(str(it.data_path), str(data.path)), str(d / 'input_link'))
+                        break
             if kind == 'continues':
                 # resumable: step files survive a failed attempt and are seen by the next one
                 steps = sorted(p.name for p in d.glob('step*'))
@@ -423,10 +429,16 @@ class World:
             if not (isinstance(value, list) and len(value) == 2):
                 raise ValueError(f'list_of_numpy payload incomplete: {len(value) if isinstance(value, list) else value!r} parts')
             p = json.loads(np.concatenate(value).tobytes().decode('utf-8'))
-        elif kind in ('dir', 'continues'):
+        elif kind in ('dir', 'continues', 'dirlink'):
             d = Path(value)
             names = sorted(str(x.relative_to(d)) for x in d.rglob('*'))
             want = ['sub', 'sub/x.txt', 'term.json'] + ([n for n in names if n.startswith('step')] if kind == 'continues' else [])
+            if kind == 'dirlink' and 'input_link' in names:
+                want.append('input_link')
+                try:
+                    json.loads((d / 'input_link').read_bytes().decode('utf-8'))  # the linked input must be readable through the result
+                except Exception as e:  # noqa
+                    raise ValueError(f'directory payload: linked input not readable through the result: {type(e).__name__}')
             if kind == 'dir':
                 want += [n for n in names if n.startswith('attempt_')][:1]
             if sorted(names) != sorted(want) or (d / 'sub' / 'x.txt').read_text() != 'x' * 10:
@@ -708,6 +720,7 @@ _KIND_ANN = {
     'generator_lazy': ('_h.Generator', '_h.tdata.GeneratedDataLazy'),
     'list_of_numpy': ('list', '_h.tdata.ListOfNumpyData'),
     'dir': ('_h.tdata.DirData', None),
+    'dirlink': ('_h.tdata.DirData', None),
     'continues': ('_h.tdata.ContinuesData', None),
     'inmemory': ('"MemBox"', None),
     'generator0': ('_h.Generator', None),
@@ -718,7 +731,7 @@ _KIND_ANN = {
 _WRONG = {
     'json': (1, 2), 'json_list': {'a': 1}, 'numpy': [1, 2], 'pandas': {'a': 1}, 'series': [1], 'generator': None,
     'generator_lazy': None, 'list_of_numpy': {'a': 1}, 'dir': {'a': 1}, 'continues': {'a': 1}, 'inmemory': 5,
-    'generator0': None, 'lon0': {'a': 1}, 'dir0': {'a': 1},
+    'generator0': None, 'lon0': {'a': 1}, 'dir0': {'a': 1}, 'dirlink': {'a': 1},
 }
 
 _OBJECT_CLASSES = '''
